@@ -25,7 +25,12 @@ type ttlState struct {
 	deadlineSeq map[uint32]uint64
 	start       time.Time
 	removed     int
-	pendingTTL  int // in-flight client transactions that issued a SetTTL/Extend
+	pendingTTL  int // in-flight client transactions that issued a SetTTL/Extend or an insert
+	// offsets that held a live row with a passed deadline at some moment of the current
+	// pass: only these can be removed by the cleanup's stale decision (the known finding)
+	expiredInPass map[uint32]bool
+	vCommitting   map[uint32]bool // blocks whose markers the cleanup has applied but not yet emitted
+	earlyRemoved  map[uint32]bool // rows judged as removed before the cleanup's commit was emitted
 }
 
 // runTTL executes a C17 case inside a testing/synctest bubble: the collection's own vacuum
@@ -56,7 +61,8 @@ func runTTLInBubble(cs *Case) (w *World) {
 	st := &concState{own: map[int][]uint32{}, perBlock: map[uint32][]*blockCommit{}, cur: map[int]map[uint32]*blockCommit{},
 		committedBlocks: map[*MTxn]map[uint32]bool{}, emitted: map[*MTxn]map[uint32]int{}, txnOf: map[int]*MTxn{}}
 	w.conc = st
-	tt := &ttlState{interval: time.Duration(cs.Cfg.Params["vacuum_ns"]), deadlineSeq: map[uint32]uint64{}, start: time.Now()}
+	tt := &ttlState{interval: time.Duration(cs.Cfg.Params["vacuum_ns"]), deadlineSeq: map[uint32]uint64{}, start: time.Now(),
+		expiredInPass: map[uint32]bool{}, vCommitting: map[uint32]bool{}, earlyRemoved: map[uint32]bool{}}
 	w.ttl = tt
 	commit.SimSetID(1000)
 	w.tap = &Tap{w: w}
@@ -109,6 +115,8 @@ func runTTLInBubble(cs *Case) (w *World) {
 			tt.passSeq = w.seq
 			tt.inPass = true
 			tt.passes++
+			tt.expiredInPass = map[uint32]bool{}
+			w.noteExpired()
 		}
 	}
 	w.sim.gate = func(t *Thread) bool {
@@ -119,6 +127,12 @@ func runTTLInBubble(cs *Case) (w *World) {
 			return tt.pendingTTL == 0
 		}
 		return true
+	}
+	w.sim.afterStep = func(t *Thread) {
+		w.noteExpired()
+		if dbgStep != nil {
+			dbgStep(w, t)
+		}
 	}
 	w.sim.onIdle = func(t *Thread) {
 		tt.inPass = false
@@ -281,6 +295,52 @@ func (w *World) advanceBy(d time.Duration) {
 	synctest.Wait()
 }
 
+// noteExpired records the rows that are live with a passed deadline right now.
+func (w *World) noteExpired() {
+	tt := w.ttl
+	if !tt.inPass {
+		return
+	}
+	now := time.Now()
+	for off := range tt.deadlineSeq { // every row that ever got a deadline committed
+		if d, ok := w.model.Get(off, "expire"); ok && d.U != 0 && time.Unix(0, int64(d.U)).Before(now) {
+			tt.expiredInPass[off] = true
+		}
+	}
+}
+
+// vacuumRemoves judges one row deletion of the cleanup and applies it to the model.
+func (w *World) vacuumRemoves(off uint32) {
+	tt := w.ttl
+	now := time.Now()
+	r, live := w.model.Rows[off]
+	stale := tt.expiredInPass[off] // the pass may have read it while it was overdue
+	class := func(sig string) string {
+		if !stale {
+			return "ttl/removed-never-expired" // not explainable by a stale decision of this pass
+		}
+		return sig
+	}
+	if !live {
+		if _, reserved := w.model.Reserved[off]; reserved {
+			w.fail(violation(class("ttl/removed-inflight-insert"), "cleanup pass started at +%v deleted offset %d which is reserved by an uncommitted insert", tt.passStart.Sub(tt.start), off))
+		}
+		return // already deleted by the workload: deleting it again changes nothing
+	}
+	d, has := r["expire"]
+	switch {
+	case !has || d.U == 0:
+		w.fail(violation(class("ttl/removed-without-ttl"), "cleanup pass started at +%v removed row %d which has no time-to-live", tt.passStart.Sub(tt.start), off))
+		return
+	case time.Unix(0, int64(d.U)).After(now):
+		w.fail(violation(class("ttl/removed-before-deadline"), "cleanup pass started at +%v removed row %d at +%v although its deadline is +%v", tt.passStart.Sub(tt.start), off, now.Sub(tt.start), time.Unix(0, int64(d.U)).Sub(tt.start)))
+		return
+	}
+	delete(w.model.Rows, off)
+	tt.removed++
+	w.stats.probe("row-expired")
+}
+
 // onVacuumCommit is the safety oracle: the tap sees every commit of the vacuum goroutine
 // inside the block latch; each row it deletes must be live, hold a deadline, and that
 // deadline must lie in the past.
@@ -288,35 +348,19 @@ func (w *World) onVacuumCommit(tc *TapCommit) {
 	if w.sim == nil || w.sim.vacuum == nil || tc.Thread != w.sim.vacuum.ID || w.sim.cur != w.sim.vacuum {
 		return
 	}
-	now := time.Now()
 	for _, b := range tc.Bufs {
 		if b.Col != "row" {
 			continue
 		}
 		for _, op := range b.Ops {
-			if op.Type != commit.Delete {
+			if op.Type != commit.Delete || w.viol != nil {
 				continue
 			}
-			r, live := w.model.Rows[op.Off]
-			if !live {
-				if _, reserved := w.model.Reserved[op.Off]; reserved {
-					w.fail(violation("ttl/removed-inflight-insert", "cleanup deleted offset %d which is reserved by an uncommitted insert", op.Off))
-					return
-				}
-				continue // already deleted by the workload: deleting it again changes nothing
+			if w.ttl.earlyRemoved[op.Off] {
+				delete(w.ttl.earlyRemoved, op.Off)
+				continue // judged when the library handed the freed offset to an insert
 			}
-			d, has := r["expire"]
-			switch {
-			case !has || d.U == 0:
-				w.fail(violation("ttl/removed-without-ttl", "cleanup pass started at +%v removed row %d which has no time-to-live", w.ttl.passStart.Sub(w.ttl.start), op.Off))
-				return
-			case time.Unix(0, int64(d.U)).After(now):
-				w.fail(violation("ttl/removed-before-deadline", "cleanup pass started at +%v removed row %d at +%v although its deadline is +%v", w.ttl.passStart.Sub(w.ttl.start), op.Off, now.Sub(w.ttl.start), time.Unix(0, int64(d.U)).Sub(w.ttl.start)))
-				return
-			}
-			delete(w.model.Rows, op.Off)
-			w.ttl.removed++
-			w.stats.probe("row-expired")
+			w.vacuumRemoves(op.Off)
 		}
 	}
 }
@@ -337,3 +381,5 @@ func (w *World) afterVacuumPass() {
 		}
 	}
 }
+
+var dbgStep func(w *World, t *Thread)
